@@ -2203,8 +2203,70 @@ func isFuncParamOrField(v ssa.Value) bool {
 	if !ok || b == nil {
 		return false
 	}
+	if al, isAlloc := b.(*ssa.Alloc); isAlloc {
+		// a struct received by value: go/ssa spills the parameter into a local
+		// (`t = local T (opts); *t = opts`) and reads its fields through &t.f
+		return fxParamSpill(al) != nil
+	}
 	_, isParam := ir.ResolveCell(b).(*ssa.Parameter)
 	return isParam
+}
+
+// fxParamSpill: a is the local copy of a by-value struct parameter — stored
+// exactly once, as a whole, from the parameter, before every other use, and
+// otherwise only read (whole or field by field). It returns the parameter.
+func fxParamSpill(a *ssa.Alloc) *ssa.Parameter {
+	if a.Referrers() == nil {
+		return nil
+	}
+	var st *ssa.Store
+	var uses []ssa.Instruction
+	for _, r := range *a.Referrers() {
+		switch x := r.(type) {
+		case *ssa.Store:
+			if x.Addr != ssa.Value(a) || st != nil {
+				return nil
+			}
+			st = x
+		case *ssa.FieldAddr:
+			uses = append(uses, x)
+			if x.Referrers() == nil {
+				continue
+			}
+			for _, r2 := range *x.Referrers() {
+				switch y := r2.(type) {
+				case *ssa.UnOp:
+					if y.Op != token.MUL {
+						return nil
+					}
+				case *ssa.DebugRef:
+				default:
+					return nil
+				}
+			}
+		case *ssa.UnOp:
+			if x.Op != token.MUL {
+				return nil
+			}
+			uses = append(uses, x)
+		case *ssa.DebugRef:
+		default:
+			return nil
+		}
+	}
+	if st == nil {
+		return nil
+	}
+	p, ok := st.Val.(*ssa.Parameter)
+	if !ok {
+		return nil
+	}
+	for _, u := range uses {
+		if !ir.Before(st, u) {
+			return nil
+		}
+	}
+	return p
 }
 
 func structHasFuncField(t types.Type) bool {
@@ -2358,6 +2420,11 @@ func flushMarshalClosure(c *Ctx) (*ssa.Function, *ssa.Function) {
 		for _, a := range ci.Common().Args {
 			al, ok := ir.ResolveCell(a).(*ssa.Alloc)
 			if !ok {
+				// the struct handed over by value (store(ctx, storeOptions{marshal: …})):
+				// the argument is a load of the local struct
+				if f := fxByValueStructFunc(ir.ResolveCell(a)); f != nil {
+					return f, flush
+				}
 				continue
 			}
 			fs, _ := fxStructStores(al)
@@ -2373,6 +2440,77 @@ func flushMarshalClosure(c *Ctx) (*ssa.Function, *ssa.Function) {
 	}
 	c.AnchorMissing("the marshal closure flush passes to (*mastNode).store")
 	return nil, flush
+}
+
+// fxByValueStructFunc: v is a load `*s` of a local struct s (an options struct
+// handed over by value), or the result of a static in-repo constructor helper
+// whose only return is such a load. It returns the marshal function (one
+// interface{} parameter) stored into a function-typed field of s — a value of
+// the helper's parameter standing for the caller's argument — provided that
+// field is stored exactly once, before the load, s is never assigned as a whole
+// from something else, and no other function-typed field holds such a function
+// (nil otherwise: the caller fails closed).
+func fxByValueStructFunc(v ssa.Value) *ssa.Function {
+	bind := func(x ssa.Value) ssa.Value { return x }
+	if call, isCall := v.(*ssa.Call); isCall {
+		callee := ir.Callee(call.Call)
+		if callee == nil || !fxOwnFunc(callee) || call.Call.IsInvoke() {
+			return nil
+		}
+		rets := ir.Returns(callee)
+		if len(rets) != 1 || len(rets[0].Results) != 1 {
+			return nil
+		}
+		v = rets[0].Results[0]
+		bind = func(x ssa.Value) ssa.Value {
+			if par, isPar := x.(*ssa.Parameter); isPar {
+				for i, q := range callee.Params {
+					if q == par && i < len(call.Call.Args) {
+						return ir.ResolveCell(call.Call.Args[i])
+					}
+				}
+			}
+			return x
+		}
+	}
+	ld, ok := v.(*ssa.UnOp)
+	if !ok || ld.Op != token.MUL {
+		return nil
+	}
+	al, ok := ld.X.(*ssa.Alloc)
+	if !ok {
+		return nil
+	}
+	if _, isStruct := al.Type().Underlying().(*types.Pointer).Elem().Underlying().(*types.Struct); !isStruct {
+		return nil
+	}
+	fs, whole := fxStructStores(al)
+	if len(whole) != 0 {
+		return nil
+	}
+	perField := map[string][]fxFieldStore{}
+	for _, s := range fs {
+		if _, isSig := s.Val.Type().Underlying().(*types.Signature); isSig {
+			perField[s.Field] = append(perField[s.Field], s)
+		}
+	}
+	var out *ssa.Function
+	for _, ss := range perField {
+		var cand *ssa.Function
+		for _, s := range ss {
+			if f := fxRealFunc(bind(ir.ResolveCell(s.Val))); f != nil && fxIfaceParam(f) != nil {
+				cand = f
+			}
+		}
+		if cand == nil {
+			continue
+		}
+		if len(ss) != 1 || ss[0].St.Parent() != ld.Parent() || !ir.Before(ss[0].St, ld) || out != nil {
+			return nil
+		}
+		out = cand
+	}
+	return out
 }
 
 // fxRealFunc resolves a function value — a closure, a plain function, or a
